@@ -625,7 +625,7 @@ void * hwloc_distances_add_create(hwloc_topology_t topology,
   }
   if ((kind & ~HWLOC_DISTANCES_KIND_ALL)
       || hwloc_weight_long(kind & HWLOC_DISTANCES_KIND_FROM_ALL) > 1
-      || hwloc_weight_long(kind & HWLOC_DISTANCES_KIND_VALUE_ALL) > 1) {
+      || hwloc_weight_long(kind & HWLOC_DISTANCES_KIND_VALUE_ALL) != 1) {
     errno = EINVAL;
     return NULL;
   }
